@@ -6,8 +6,8 @@
     alpha and the two binary heaps.  [ext_ok X] asks only that the order is a total preorder and
     that the heaps keep their contents — nothing about [<], alpha or which of two equal
     distances a heap pops first. *)
-From GV Require Export Vec.Hnsw Vec.Brute Vec.Kernel Vec.Quant Vec.Inst Vec.Wrap Vec.SmallSort.
-From GV Require Import Vec.Proofs Vec.ProofsKernel Vec.ProofsQuant Vec.ProofsWrap Vec.ProofsJoin Vec.ProofsHeap.
+From GV Require Export Vec.Hnsw Vec.Brute Vec.Kernel Vec.Quant Vec.Quant2 Vec.Inst Vec.Wrap Vec.SmallSort.
+From GV Require Import Vec.Proofs Vec.ProofsKernel Vec.ProofsQuant Vec.ProofsWrap Vec.ProofsJoin Vec.ProofsHeap Vec.ProofsQuant2.
 From Coq Require Import ZArith List Bool Permutation Sorted QArith.
 Import ListNotations.
 Open Scope Z_scope.
@@ -195,6 +195,39 @@ Theorem pre_stages_ok : forall D (leb : D -> D -> bool) key k,
 Proof. intros; split; [apply pre_none_ok|split; [apply pre_rank_ok|apply pre_rank_trunc_ok]]. Qed.
 Print Assumptions pre_stages_ok.
 
+
+(** ---- quantised distances stay within their error of the exact ones ----
+    scalar: for stored vectors inside the trained range (everything scaled by 255, squares for roots)
+      | asymmetric_distance(q, quantize(v)) - euclidean(q, v) | <= sqrt(sum_i (range_i/255)^2) *)
+Theorem asymmetric_bound : forall l : list dim4,
+  (forall mn range q v, In (mn, range, q, v) l -> 0 < range /\ mn <= v <= mn + range) ->
+  0 <= err255 l <= range2 l /\
+  (asym255 l + exact255 l - err255 l) * (asym255 l + exact255 l - err255 l) <= 4 * asym255 l * exact255 l.
+Proof. exact asymmetric_bound_l. Qed.
+Print Assumptions asymmetric_bound.
+
+(** binary: the hamming distance of the packed sign bits is the number of differing signs *)
+Theorem hamming_is_sign_disagreements : forall a b : list Z, length a = length b ->
+  hamming_words (bq_quantize a) (bq_quantize b) = hamming_bits (sign_bits a) (sign_bits b).
+Proof. exact hamming_is_sign_disagreements_l. Qed.
+Print Assumptions hamming_is_sign_disagreements.
+
+(** product: each code is a nearest centroid (the first among equals); the table (ADC) distance
+    is the squared distance to the reconstruction *)
+Theorem pq_code_nearest : forall (cents : list (list Z)) (sub : list Z), cents <> [] ->
+  let c := argmin_first (map (fun x => eucl2 sub x) cents) in
+  0 <= c < zlen cents /\
+  (forall k, 0 <= k < zlen cents -> eucl2 sub (nthz cents c []) <= eucl2 sub (nthz cents k [])) /\
+  (forall k, 0 <= k < c -> eucl2 sub (nthz cents c []) < eucl2 sub (nthz cents k [])).
+Proof. exact pq_code_nearest_l. Qed.
+Print Assumptions pq_code_nearest.
+
+Theorem pq_adc_is_reconstruct : forall (cb : codebook) sd q codes,
+  Forall2 (fun cents c => length (nthz cents c []) = sd) cb codes -> length q = (length cb * sd)%nat ->
+  pq_dist_table (pq_table cb sd q) codes = eucl2 q (pq_reconstruct cb codes).
+Proof. exact pq_adc_is_reconstruct_l. Qed.
+Print Assumptions pq_adc_is_reconstruct.
+
 (** ---- VectorScanOperator / VectorJoinOperator output ---- *)
 Theorem scan_chunks_ok : forall (A : Type) (cap : nat) (l : list A), (1 <= cap)%nat ->
   concat (scan_chunks cap l) = l /\ Forall (fun ch => (1 <= length ch <= cap)%nat) (scan_chunks cap l).
@@ -247,4 +280,10 @@ Example nv_qsearch : exists r, qsearch (zext Euclidean) (zdist Euclidean)
     /\ map fst r = [1; 2].
 Proof. eexists. vm_compute. split; reflexivity. Qed.
 Example nv_nan_free : has_nan [(1, Some 3); (2, Some 1)] = false /\ brute_small lt_pc [(1, Some 3); (2, Some 1)] 1 = [(2, Some 1)].
+Proof. vm_compute. split; reflexivity. Qed.
+Example nv_asym : let l : list dim4 := [(10, 255 * 4, 500, 523)] in
+  (forall mn range q v, In (mn, range, q, v) l -> 0 < range /\ mn <= v <= mn + range) /\ err255 l = 255 * 255 /\ asym255 l = 5610 * 5610 /\ exact255 l = (255 * 23) * (255 * 23).
+Proof. vm_compute. split; [|split; [|split]; reflexivity]. intros mn range q v [H|[]]. inversion H; subst. split; [reflexivity|split; discriminate]. Qed.
+Example nv_pq : pq_quantize [[[0; 0]; [4; 4]; [4; 4]]; [[1]; [-1]]] 2 [3; 5; -7] = [1; 1]
+  /\ pq_dist_table (pq_table [[[0; 0]; [4; 4]; [4; 4]]; [[1]; [-1]]] 2 [3; 5; -7]) [1; 1] = 1 + 1 + 36.
 Proof. vm_compute. split; reflexivity. Qed.
